@@ -1,14 +1,21 @@
 package main
 
 import (
+	"bytes"
 	"encoding/hex"
 	"fmt"
 	"net/netip"
+	"os"
+	"path/filepath"
 	"sort"
 	"strings"
+	"sync/atomic"
 	"time"
 
 	"github.com/irai/packet"
+	"github.com/irai/packet/handlers/dhcp4_spoofer"
+	"github.com/irai/packet/handlers/dns_naming"
+	"github.com/irai/packet/handlers/icmp_spoofer"
 	"pvharness/lib"
 )
 
@@ -16,26 +23,63 @@ const bufSize = 2048
 
 // env is one fresh instance of the library: session + handlers on a recording connection.
 type env struct {
-	s    *packet.Session
-	conn *lib.RecConn
+	s     *packet.Session
+	conn  *lib.RecConn
+	dhcp  *dhcp4_spoofer.Handler
+	icmp6 *icmp_spoofer.Handler6
+	dns   *dns_naming.DNSHandler
+	lease string
+	pend  [][]byte // emitted frames not yet reported
+}
+
+var envSeq int64
+
+func scratchDir() string {
+	if d := os.Getenv("VERIF_SCRATCH"); d != "" {
+		return d
+	}
+	return os.TempDir()
 }
 
 func newEnv() *env {
 	s, conn := lib.NewSession()
-	return &env{s: s, conn: conn}
+	e := &env{s: s, conn: conn}
+	e.lease = filepath.Join(scratchDir(), fmt.Sprintf("c10-leases-%d-%d.yaml", os.Getpid(), atomic.AddInt64(&envSeq, 1)))
+	os.Remove(e.lease)
+	var err error
+	e.dhcp, err = dhcp4_spoofer.Config{Mode: dhcp4_spoofer.ModeSecondaryServer, DNSServer: lib.RouterIP4,
+		NetfilterIP: netip.PrefixFrom(lib.HostIP4, 24), LeaseFilename: e.lease}.New(s)
+	if err != nil {
+		panic(err)
+	}
+	e.icmp6, err = icmp_spoofer.New6(s)
+	if err != nil {
+		panic(err)
+	}
+	e.dns = dns_naming.VerifNew(s)
+	conn.Take()
+	return e
 }
 
 func (e *env) close() {
+	e.dhcp.Close()
+	e.icmp6.Close()
+	os.Remove(e.lease)
 	go e.s.Close() // Close sleeps 1 s
 }
 
 func hx(b []byte) string { return hex.EncodeToString(b) }
 
-func ipKey(a netip.Addr) string { return hx(a.AsSlice()) }
+func ipKey(a netip.Addr) string {
+	if !a.IsValid() {
+		return ""
+	}
+	return hx(a.AsSlice())
+}
 
 // runHistory executes ops on a fresh library instance. shared: one receive buffer that is
-// overwritten (byte i = fill + i*stp) after every packet; otherwise a private exact-size
-// buffer per packet that is never touched again by the harness.
+// overwritten (byte i = fill + i*stp) after every packet; otherwise a private buffer of the same
+// capacity per packet that is never touched again by the harness.
 // Returns the projected transcript (compared with the model) and the full transcript
 // (compared between the two runs).
 func runHistory(ops []op, shared bool, fill, stp byte) (string, string) {
@@ -46,74 +90,332 @@ func runHistory(ops []op, shared bool, fill, stp byte) (string, string) {
 		buf = make([]byte, bufSize)
 	}
 	var proj, full []string
-	for _, o := range ops {
-		switch o.kind {
-		case 'p':
-			var p []byte
-			if shared {
-				n := copy(buf, o.frame)
-				p = buf[:n]
-			} else {
-				p = make([]byte, len(o.frame))
-				copy(p, o.frame)
-			}
-			pj, fl := e.recv(p)
-			if shared {
-				for i := range buf {
-					buf[i] = fill + byte(i)*stp
-				}
-			}
-			proj = append(proj, pj)
-			full = append(full, fl)
-		case 'x':
-			e.purge(o.keys)
-			proj = append(proj, "-")
-			full = append(full, "-"+e.drain())
-		case 'q':
-			proj = append(proj, e.dump())
-			full = append(full, e.dumpFull())
-		}
+	for i := range ops {
+		pj, fl := e.apply(&ops[i], buf, shared, fill, stp)
+		proj = append(proj, pj)
+		full = append(full, fl)
 	}
 	proj = append(proj, e.dump())
 	full = append(full, e.dumpFull())
 	return strings.Join(proj, "|"), strings.Join(full, "|")
 }
 
-// recv is what an application does with a received frame: Parse, dispatch to the handlers, Notify.
-func (e *env) recv(p []byte) (string, string) {
-	frame, err := e.s.Parse(p)
-	if err != nil {
-		return "-", "perr" + e.drain()
+// apply executes one operation and returns its projected and full outputs.
+func (e *env) apply(o *op, buf []byte, shared bool, fill, stp byte) (string, string) {
+	switch o.kind {
+	case 'x':
+		e.purge(o.keys)
+		return e.outputs(0)
+	case 'o':
+		return e.outputsCat(e.offline(o.keys[0]), 'P')
+	case 'u':
+		return e.outputs(e.hunt(o.keys[0]))
+	case 'q':
+		return e.dump(), e.dumpFull()
 	}
-	e.s.Notify(frame)
-	return "-", "ok" + e.drain()
+	var p []byte
+	if shared {
+		n := copy(buf, o.frame)
+		p = buf[:n]
+	} else {
+		// the handlers build replies in place using the capacity of the packet buffer
+		// (EncodeDHCP4: b[:cap(b)]), so the private buffer has the same capacity as the shared one
+		b := make([]byte, bufSize)
+		n := copy(b, o.frame)
+		p = b[:n]
+	}
+	async, tag := e.recv(p, o)
+	if shared {
+		for i := range buf {
+			buf[i] = fill + byte(i)*stp
+		}
+	}
+	pj, fl := e.outputs(async)
+	return pj, tag + " " + fl
 }
 
-// drain collects the notifications and emitted frames produced so far (full transcript only).
-func (e *env) drain() string {
-	var sb strings.Builder
+// recv is what an application does with a received frame: Parse, dispatch to the handler of the
+// payload, apply learned names to the host table, Notify. Returns the number of frames that
+// goroutines started by the handler will still emit.
+func (e *env) recv(p []byte, o *op) (async int, tag string) {
+	frame, err := e.s.Parse(p)
+	if err != nil {
+		return 0, "perr"
+	}
+	tag = frame.PayloadID.String()
+	switch frame.PayloadID {
+	case packet.PayloadDHCP4:
+		e.dhcp.ProcessPacket(frame)
+		async = e.dhcpAsync(o)
+	case packet.PayloadICMP6:
+		icmp_spoofer.VerifSetRepeat(3) // every router advertisement is processed
+		e.icmp6.ProcessPacket(frame)
+	case packet.PayloadDNS:
+		e.dns.ProcessDNS(frame)
+	case packet.PayloadMDNS, packet.PayloadLLMNR:
+		ipv4, ipv6, _ := e.dns.ProcessMDNS(frame)
+		for _, ent := range append(ipv4, ipv6...) {
+			h := frame.Host
+			if ent.Addr.IP.IsValid() {
+				h = e.s.FindIP(ent.Addr.IP)
+			}
+			if h == nil {
+				continue
+			}
+			if frame.PayloadID == packet.PayloadMDNS {
+				h.UpdateMDNSName(ent.NameEntry)
+			} else {
+				h.UpdateLLMNRName(ent.NameEntry)
+			}
+		}
+	case packet.PayloadNBNS:
+		if name, err := e.dns.ProcessNBNS(frame.Host, frame.Ether(), frame.Payload()); err == nil && frame.Host != nil {
+			frame.Host.UpdateNBNSName(name)
+		}
+	case packet.PayloadSSDP:
+		if name, _, err := e.dns.ProcessSSDP(frame.Host, frame.Ether(), frame.Payload()); err == nil && frame.Host != nil {
+			frame.Host.UpdateSSDPName(name)
+		}
+	}
+	e.s.Notify(frame)
+	return async, tag
+}
+
+// dhcpAsync: how many decline frames the handler's goroutines will send for this message
+// (discover with a usable requested address that got an offer; rebooting request answered by NAK).
+func (e *env) dhcpAsync(o *op) int {
+	if len(o.f) < 6 {
+		return 0
+	}
+	reply := byte(0)
+	e.collect()
+	for _, f := range e.pend {
+		if t, ok := dhcpType(f, 67, 68); ok {
+			reply = t
+		}
+	}
+	switch {
+	case o.f[0] == "1" && o.f[3] != "-" && reply == 2:
+		off, _ := parseLoc(o.f[3])
+		if off+4 <= len(o.frame) && !allZero(o.frame[off:off+4]) {
+			return 1
+		}
+	case o.f[0] == "3" && o.f[4] == "3" && reply == 6:
+		return 1
+	case o.f[0] == "2": // OFFER of another server on the client port
+		return 1
+	}
+	return 0
+}
+
+func allZero(b []byte) bool {
+	for _, x := range b {
+		if x != 0 {
+			return false
+		}
+	}
+	return true
+}
+
+func parseLoc(s string) (int, int) {
+	a, b, _ := strings.Cut(s, ".")
+	return atoi(a), atoi(b)
+}
+
+// dhcpType returns the DHCP message type of an Ethernet/IPv4/UDP frame with the given ports.
+func dhcpType(f []byte, sp, dp int) (byte, bool) {
+	if len(f) < 42+240 || f[12] != 0x08 || f[13] != 0x00 || f[23] != 17 {
+		return 0, false
+	}
+	if int(f[34])<<8|int(f[35]) != sp || int(f[36])<<8|int(f[37]) != dp {
+		return 0, false
+	}
+	if v := dhcpOpt(f, 53); len(v) == 1 {
+		return v[0], true
+	}
+	return 0, false
+}
+
+func dhcpOpt(f []byte, code byte) []byte {
+	o := f[42+240:]
+	for len(o) >= 2 && o[0] != 255 {
+		if o[0] == 0 {
+			o = o[1:]
+			continue
+		}
+		n := int(o[1])
+		if len(o) < 2+n {
+			return nil
+		}
+		if o[0] == code {
+			return o[2 : 2+n]
+		}
+		o = o[2+n:]
+	}
+	return nil
+}
+
+func (e *env) collect() { e.pend = append(e.pend, e.conn.Take()...) }
+
+func (e *env) count(cat byte) int {
+	n := 0
+	for _, f := range e.pend {
+		if _, c := classify(f); c == cat {
+			n++
+		}
+	}
+	return n
+}
+
+// outputs waits for the announced asynchronous frames (decline/release frames for DHCP steps,
+// probes for purge steps), then collects notifications and emitted frames: projected items
+// N.. R.. D.. P.. and the full (sorted) frame list.
+func (e *env) outputs(async int) (string, string) { return e.outputsCat(async, 'D') }
+
+func (e *env) outputsCat(async int, cat byte) (string, string) {
+	e.collect()
+	if async > 0 {
+		deadline := time.Now().Add(3 * time.Second)
+		for e.count(cat) < async && time.Now().Before(deadline) {
+			time.Sleep(100 * time.Microsecond)
+			e.collect()
+		}
+	}
+	var ns, rs, ds, ps, fs []string
 	for {
 		select {
 		case n := <-e.s.C:
-			sb.WriteString(" N(" + showNotification(n) + ")")
+			ns = append(ns, "N("+showNotification(n)+")")
 			continue
 		default:
 		}
 		break
 	}
-	for _, f := range e.conn.Take() {
-		sb.WriteString(" F(" + hx(f) + ")")
+	for _, f := range e.pend {
+		it, cat := classify(f)
+		switch cat {
+		case 'B': // DISCOVER burst of attackDHCPServer: rate limited by a process global, not part of any transcript
+			continue
+		case 'R':
+			rs = append(rs, it)
+			fs = append(fs, canonDHCP(f, false))
+			continue
+		case 'D':
+			ds = append(ds, it)
+			fs = append(fs, canonDHCP(f, strings.HasPrefix(it, "D(7,"))) // release: random xid
+			continue
+		case 'P':
+			ps = append(ps, it)
+			// not functions of the history: the ARP probe carries two stale bytes of a pooled send buffer
+			// (session.go arpRequest writes hlen/plen into the Ethernet header instead), the echo probe
+			// uses the wall clock as identifier
+			g := append([]byte{}, f...)
+			if g[12] == 0x08 && g[13] == 0x06 {
+				g[18], g[19] = 0, 0
+			} else if len(g) >= 60 && g[54] == 128 {
+				g[56], g[57], g[58], g[59] = 0, 0, 0, 0
+			}
+			f = g
+		}
+		fs = append(fs, hx(f))
 	}
-	return sb.String()
+	e.pend = nil
+	sort.Strings(fs)
+	items := append(append(append(ns, rs...), ds...), ps...)
+	pj := strings.Join(items, "")
+	if pj == "" {
+		pj = "-"
+	}
+	return pj, pj + " F[" + strings.Join(fs, ",") + "]"
 }
 
+// classify maps an emitted frame to its projected item and category:
+// 'R' DHCP server reply, 'D' decline/release sent as a fake client, 'P' purge probe, 'B' discover burst, 0 other.
+func classify(f []byte) (string, byte) {
+	if len(f) < 14 {
+		return "", 0
+	}
+	et := int(f[12])<<8 | int(f[13])
+	switch {
+	case et == 0x0806 && len(f) >= 42 && f[21] == 1:
+		return "P(arp," + hx(f[38:42]) + ")", 'P'
+	case et == 0x86dd && len(f) >= 14+40+8 && f[20] == 58:
+		switch f[54] {
+		case 128:
+			return "P(" + hx(f[0:6]) + "," + hx(f[38:54]) + ")", 'P'
+		case 135:
+			if len(f) >= 14+40+24 {
+				return "P(" + hx(f[0:6]) + "," + hx(f[62:78]) + ")", 'P'
+			}
+		}
+	case et == 0x0800:
+		if t, ok := dhcpType(f, 67, 68); ok {
+			return fmt.Sprintf("R(%d,%s,%s,%s)", t, hx(f[70:76]), hx(f[46:50]), hx(f[58:62])), 'R'
+		}
+		if t, ok := dhcpType(f, 68, 67); ok {
+			switch t {
+			case 1:
+				return "", 'B'
+			case 4:
+				return fmt.Sprintf("D(4,%s,%s,%s,%s)", hx(dhcpOpt(f, 61)), hx(f[70:76]), hx(dhcpOpt(f, 50)), hx(f[46:50])), 'D'
+			case 7:
+				return fmt.Sprintf("D(7,%s,%s,%s,)", hx(dhcpOpt(f, 61)), hx(f[70:76]), hx(f[54:58])), 'D'
+			}
+		}
+	}
+	return "", 0
+}
+
+// canonDHCP prints a DHCP frame with its options sorted by code (the library appends them in Go map
+// order) and the UDP checksum cleared; noXID also clears the transaction id.
+func canonDHCP(f []byte, noXID bool) string {
+	g := append([]byte{}, f[:42+240]...)
+	g[40], g[41] = 0, 0
+	if noXID {
+		g[46], g[47], g[48], g[49] = 0, 0, 0, 0
+	}
+	var opts []string
+	o := f[42+240:]
+	for len(o) >= 2 && o[0] != 255 {
+		if o[0] == 0 {
+			o = o[1:]
+			continue
+		}
+		n := int(o[1])
+		if len(o) < 2+n {
+			break
+		}
+		opts = append(opts, fmt.Sprintf("%03d=%s", o[0], hx(o[2:2+n])))
+		o = o[2+n:]
+	}
+	sort.Strings(opts)
+	return hx(g) + "{" + strings.Join(opts, ",") + "}" + fmt.Sprint(len(f))
+}
+
+func hstr(s string) string { return hx([]byte(s)) }
+
 func showName(n packet.NameEntry) string {
-	return fmt.Sprintf("%q/%q/%q/%q/%q", n.Type, n.Name, n.Model, n.Manufacturer, n.OS)
+	return hstr(n.Name) + "." + hstr(n.Model) + "." + hstr(n.Manufacturer) + "." + hstr(n.OS)
+}
+
+func showNames(l ...packet.NameEntry) string {
+	out := make([]string, len(l))
+	for i, n := range l {
+		out[i] = showName(n)
+	}
+	return strings.Join(out, "/")
+}
+
+func tf(b bool) string {
+	if b {
+		return "T"
+	}
+	return "F"
 }
 
 func showNotification(n packet.Notification) string {
-	return fmt.Sprintf("%s %s on=%v rt=%v %s %s %s %s %s", ipKey(n.Addr.IP), hx(n.Addr.MAC), n.Online, n.IsRouter,
-		showName(n.DHCP4Name), showName(n.MDNSName), showName(n.SSDPName), showName(n.LLMNRName), showName(n.NBNSName))
+	return ipKey(n.Addr.IP) + "/" + hx(n.Addr.MAC) + "/" + tf(n.Online) + "/" + tf(n.IsRouter) + "/" +
+		showNames(n.DHCP4Name, n.MDNSName, n.SSDPName, n.LLMNRName, n.NBNSName)
 }
 
 func (e *env) purge(keys [][]byte) {
@@ -132,12 +434,53 @@ func (e *env) purge(keys [][]byte) {
 	e.s.VerifPurge(time.Now())
 }
 
-// dump: the retained byte strings of the host and MAC tables, as the model prints them.
+// offline makes purge find this one host silent for longer than the offline deadline:
+// it is probed and set offline. Returns the number of probe frames to wait for.
+func (e *env) offline(key []byte) int {
+	a, ok := netip.AddrFromSlice(key)
+	if !ok {
+		return 0
+	}
+	h := e.s.FindIP(a)
+	if h == nil {
+		return 0
+	}
+	h.MACEntry.Row.Lock()
+	on := h.Online
+	if on {
+		h.LastSeen = time.Now().Add(-2 * packet.DefaultOfflineDeadline)
+	}
+	h.MACEntry.Row.Unlock()
+	if !on {
+		return 0
+	}
+	e.s.VerifPurge(time.Now())
+	return 1
+}
+
+// hunt calls the DHCP handler's StartHunt for the address; returns the number of release frames to wait for.
+func (e *env) hunt(key []byte) int {
+	a, ok := netip.AddrFromSlice(key)
+	if !ok {
+		return 0
+	}
+	n := 0
+	for _, l := range e.dhcp.VerifLeases() {
+		if l.Addr.IP == a {
+			n = 1
+		}
+	}
+	e.dhcp.StartHunt(packet.Addr{IP: a})
+	return n
+}
+
+// dump: the retained byte strings of all tables, as the model prints them.
 func (e *env) dump() string {
 	hosts := e.s.GetHosts()
 	hs := make([]string, 0, len(hosts))
 	for _, h := range hosts {
-		hs = append(hs, ipKey(h.Addr.IP)+"="+hx(h.Addr.MAC))
+		hs = append(hs, ipKey(h.Addr.IP)+"="+hx(h.Addr.MAC)+":"+tf(h.Online)+":"+
+			showNames(h.DHCP4Name, h.MDNSName, h.SSDPName, h.LLMNRName, h.NBNSName))
 	}
 	sort.Strings(hs)
 	ms := make([]string, 0, len(e.s.MACTable.Table))
@@ -146,26 +489,121 @@ func (e *env) dump() string {
 		for _, h := range m.HostList {
 			ips = append(ips, ipKey(h.Addr.IP))
 		}
-		ms = append(ms, hx(m.MAC)+"["+strings.Join(ips, "+")+"]")
+		ms = append(ms, hx(m.MAC)+"["+strings.Join(ips, "+")+"]"+tf(m.Online)+":"+ipKey(m.IP4Offer)+":"+
+			showNames(m.DHCP4Name, m.MDNSName, m.SSDPName, m.LLMNRName, m.NBNSName))
 	}
-	return "H:" + strings.Join(hs, ",") + ";M:" + strings.Join(ms, ",")
+	// lease table, sorted by key (= string(ClientID) at insertion; the hook reports ClientID)
+	var ls []string
+	leases := e.dhcp.VerifLeases()
+	sort.Slice(leases, func(i, j int) bool { return bytes.Compare(leases[i].ClientID, leases[j].ClientID) < 0 })
+	for _, l := range leases {
+		ls = append(ls, hx(l.ClientID)+"="+hx(l.ClientID)+"/"+hx(l.Addr.MAC)+"/"+hx(l.XID)+"/"+hstr(l.Name))
+	}
+	// router table
+	e.icmp6.Lock()
+	var rs []string
+	for ip, r := range e.icmp6.LANRouters {
+		var pf, rd, ds []string
+		for _, p := range r.Options.Prefixes {
+			pf = append(pf, hx(p.Prefix))
+		}
+		for _, a := range r.Options.RDNSS.Servers {
+			rd = append(rd, hx(a))
+		}
+		for _, d := range r.Options.DNSSearchList.DomainNames {
+			ds = append(ds, hstr(d))
+		}
+		_ = ip
+		rs = append(rs, ipKey(r.Addr.IP)+"="+hx(r.Addr.MAC)+"/"+hx(r.Options.SourceLLA.MAC)+"/"+strings.Join(pf, "+")+"/"+
+			strings.Join(rd, "+")+"/"+strings.Join(ds, "+")+"/"+hx(r.Options.RouteInformation.Prefix))
+	}
+	e.icmp6.Unlock()
+	sort.Strings(rs)
+	// DNS table
+	var dn []string
+	keys := make([]string, 0, len(e.dns.DNSTable))
+	for k := range e.dns.DNSTable {
+		keys = append(keys, k)
+	}
+	sort.Strings(keys)
+	for _, k := range keys {
+		ent := e.dns.DNSFind(k)
+		var a4, a6, cn []string
+		for ip, r := range ent.IP4Records {
+			a4 = append(a4, ipKey(ip)+"\x00"+ipKey(r.IP)+"="+hstr(r.Name))
+		}
+		for ip, r := range ent.IP6Records {
+			a6 = append(a6, ipKey(ip)+"\x00"+ipKey(r.IP)+"="+hstr(r.Name))
+		}
+		for key, r := range ent.CNameRecords {
+			cn = append(cn, hstr(key)+"\x00"+hstr(r.CName)+"="+hstr(r.Name))
+		}
+		dn = append(dn, hstr(ent.Name)+"{"+sortedVals(a4)+"/"+sortedVals(a6)+"/"+sortedVals(cn)+"}")
+	}
+	return "H:" + strings.Join(hs, ",") + ";M:" + strings.Join(ms, ",") + ";L:" + strings.Join(ls, ",") +
+		";R:" + strings.Join(rs, ",") + ";D:" + strings.Join(dn, ",")
 }
 
-// dumpFull adds the fields the model does not predict (flags, names, ...).
+// sortedVals sorts "key\x00value" strings by key and returns the values joined by '+'.
+func sortedVals(l []string) string {
+	sort.Strings(l)
+	out := make([]string, len(l))
+	for i, s := range l {
+		_, v, _ := strings.Cut(s, "\x00")
+		out[i] = v
+	}
+	return strings.Join(out, "+")
+}
+
+// dumpFull adds the fields the model does not predict (flags, lease states, addresses, TTLs, ...).
 func (e *env) dumpFull() string {
 	hosts := e.s.GetHosts()
 	hs := make([]string, 0, len(hosts))
 	for _, h := range hosts {
-		hs = append(hs, fmt.Sprintf("%s=%s on=%v st=%v man=%q %s %s %s %s %s me=%s", ipKey(h.Addr.IP), hx(h.Addr.MAC), h.Online, h.HuntStage,
-			h.Manufacturer, showName(h.DHCP4Name), showName(h.MDNSName), showName(h.SSDPName), showName(h.LLMNRName), showName(h.NBNSName),
-			hx(h.MACEntry.MAC)))
+		hs = append(hs, fmt.Sprintf("%s=%s on=%v st=%v man=%q me=%s types=%s%s%s%s%s", ipKey(h.Addr.IP), hx(h.Addr.MAC), h.Online, h.HuntStage,
+			h.Manufacturer, hx(h.MACEntry.MAC), h.DHCP4Name.Type, h.MDNSName.Type, h.SSDPName.Type, h.LLMNRName.Type, h.NBNSName.Type))
 	}
 	sort.Strings(hs)
 	var ms []string
 	for _, m := range e.s.MACTable.Table {
-		ms = append(ms, fmt.Sprintf("%s cap=%v on=%v rt=%v ip4=%s offer=%s gua=%s lla=%s man=%q %s %s %s %s %s", hx(m.MAC), m.Captured, m.Online, m.IsRouter,
-			m.IP4, m.IP4Offer, m.IP6GUA, m.IP6LLA, m.Manufacturer,
-			showName(m.DHCP4Name), showName(m.MDNSName), showName(m.SSDPName), showName(m.LLMNRName), showName(m.NBNSName)))
+		ms = append(ms, fmt.Sprintf("%s cap=%v on=%v rt=%v ip4=%s offer=%s gua=%s lla=%s man=%q", hx(m.MAC), m.Captured, m.Online, m.IsRouter,
+			m.IP4, m.IP4Offer, m.IP6GUA, m.IP6LLA, m.Manufacturer))
 	}
-	return e.dump() + " HF:" + strings.Join(hs, ",") + " MF:" + strings.Join(ms, ",") + e.drain()
+	var ls []string
+	for _, l := range e.dhcp.VerifLeases() {
+		ls = append(ls, fmt.Sprintf("%s st=%v ip=%s offer=%s net=%s", hx(l.ClientID), l.State, l.Addr.IP, l.IPOffer, l.SubnetID))
+	}
+	sort.Strings(ls)
+	e.icmp6.Lock()
+	var rs []string
+	for _, r := range e.icmp6.LANRouters {
+		rs = append(rs, fmt.Sprintf("%s M=%v O=%v pref=%d hop=%d life=%v reach=%d retr=%d mtu=%d first=%s rdl=%v dsl=%v tlla=%s",
+			ipKey(r.Addr.IP), r.ManagedFlag, r.OtherCondigFlag, r.Preference, r.CurHopLimit, r.DefaultLifetime, r.ReacheableTime, r.RetransTimer,
+			r.Options.MTU, hx(r.Options.FirstPrefix), r.Options.RDNSS.Lifetime, r.Options.DNSSearchList.Lifetime, hx(r.Options.TargetLLA.MAC)))
+	}
+	e.icmp6.Unlock()
+	sort.Strings(rs)
+	var dn []string
+	for k, ent := range e.dns.DNSTable {
+		var ttl []string
+		for ip, r := range ent.IP4Records {
+			ttl = append(ttl, fmt.Sprintf("%s:%d", ip, r.TTL))
+		}
+		for ip, r := range ent.IP6Records {
+			ttl = append(ttl, fmt.Sprintf("%s:%d", ip, r.TTL))
+		}
+		for c, r := range ent.CNameRecords {
+			ttl = append(ttl, fmt.Sprintf("%s:%d", c, r.TTL))
+		}
+		for c, r := range ent.PTRRecords {
+			ttl = append(ttl, fmt.Sprintf("%s:%s:%d", c, r.IP, r.TTL))
+		}
+		sort.Strings(ttl)
+		dn = append(dn, hstr(k)+"["+strings.Join(ttl, ",")+"]")
+	}
+	sort.Strings(dn)
+	pj, fl := e.outputs(0)
+	_ = pj
+	return e.dump() + " HF:" + strings.Join(hs, ",") + " MF:" + strings.Join(ms, ",") + " LF:" + strings.Join(ls, ",") +
+		" RF:" + strings.Join(rs, ",") + " DF:" + strings.Join(dn, ",") + " " + fl
 }
